@@ -77,12 +77,21 @@ GALLERY = [
     ("<D>(deps: &D, c: char, f: f64, i: i128, u: usize, un: ()) -> ::std::string::String", "{ ::std::format!(\"{c}{f}{i}{u}{un:?}\") }", "'c', 1.5, -3, 4, ()", "\"c1.5-34()\""),
     ("<D>(deps: &D, cow: ::std::borrow::Cow<'_, str>) -> usize", "{ cow.len() }", "::std::borrow::Cow::Borrowed(\"abc\")", "3"),
     ("<D>(deps: &D, x: &&&u8) -> u8", "{ ***x + 1 }", "&&&4", "5"),
+    # type / const parameters that no argument determines (the caller names them; the delegation has to pass them on)
+    ("<D, T: 'static>(deps: &D) -> &'static str", "{ ::core::any::type_name::<T>() }", "", "\"u8\"", ("::<_, u8>", "Subj::<u8>::subj(&app)")),
+    ("<T: 'static>(deps: &impl ::core::marker::Sized, x: u8) -> (&'static str, u8)", "{ (::core::any::type_name::<T>(), x) }", "7", "(\"u16\", 7)",
+     ("::<u16>", "Subj::<u16>::subj(&app, 7)")),
+    ("<D, const N: usize>(deps: &D) -> usize", "{ N }", "", "3", ("::<_, 3>", "Subj::<3>::subj(&app)")),
+    ("<'a, D, T: ::core::default::Default + ::core::fmt::Debug, const N: usize>(deps: &'a D, s: &'a str) -> (::std::string::String, &'a str)",
+     "{ (::std::format!(\"{:?}{}\", T::default(), N), s) }", "\"s\"", "(\"05\", \"s\")", ("::<_, i8, 5>", "Subj::<i8, 5>::subj(&app, \"s\")")),
 ]
 
 
 def gallery_cases(label):
     out = []
-    for gi, (sig, body, args, want) in enumerate(GALLERY):
+    for gi, entry in enumerate(GALLERY):
+        sig, body, args, want = entry[:4]
+        turbofish, trait_call = entry[4] if len(entry) > 4 else ("", None)
         for form in ("fn", "async", "mod", "unsafe"):
             cid = "c03g%s_%02d_%s" % (label, gi, form)
             is_async = form == "async"
@@ -106,8 +115,8 @@ def gallery_cases(label):
             conv = (lambda e: "%s.collect::<::std::vec::Vec<_>>()" % e) if needs_collect else (lambda e: e)
             generic_args = "::<u8, _>" if False else ""
             run = ["pub fn run() {", "    let app = ::entrait::Impl::new(());",
-                   '    ::vrt::phase("direct"); { let r = %s; ::vrt::result(&r); }' % conv(w("%s(&app, %s)" % (path, args))),
-                   '    ::vrt::phase("trait"); { let r = %s; ::vrt::result(&r); }' % conv(w("app.subj(%s)" % args)), "}"]
+                   '    ::vrt::phase("direct"); { let r = %s; ::vrt::result(&r); }' % conv(w("%s%s(&app, %s)" % (path, turbofish, args))),
+                   '    ::vrt::phase("trait"); { let r = %s; ::vrt::result(&r); }' % conv(w(trait_call or "app.subj(%s)" % args)), "}"]
             out.append(core.Case(cid, item + "\n" + "\n".join(run) + "\n", meta={"gallery": gi, "form": form, "want": want, "nontrivial": True, "sig": sig}))
     return out
 
